@@ -313,6 +313,12 @@ def report(pid, tier, seed, mod, kernels, results, fatals, wall, build_s, args):
         return 1
     if fatals or (not results):
         return 2
+    # a run in which a large share of the kernels could not be analysed (unsupported IR, budget, encoding mismatch)
+    # decided too little to be called a pass
+    bad = sum(v for k, v in statuses.items() if k not in ("ok",))
+    if results and bad > 0.3 * len(results):
+        print("MACHINERY: %d of %d kernel runs were not analysed (%s): inconclusive" % (bad, len(results), statuses))
+        return 2
     return 0
 
 
